@@ -600,6 +600,10 @@ def _adv_getitem(t, index):
             raise Unsupported("advanced indexing mixed with None/Ellipsis")
     # single boolean mask: data dependent shape
     if any(T(i) and i.dtype == "b" for i in index):
+        if len(index) == 1 and index[0].rank == t.rank:
+            from .methods import MaskedSel
+
+            return MaskedSel(t, index[0])
         raise Unsupported("boolean-mask getitem (data-dependent shape)")
     index = tuple(index) + (slice(None),) * (t.rank - len(index))
     tens_pos = [k for k, i in enumerate(index) if T(i) or isinstance(i, int) or (is_z3(i))]
@@ -1442,9 +1446,39 @@ def norm(t, p=2, dim=-1, keepdim=False):
     return unsqueeze(r, d) if keepdim else r
 
 
+INF = z3.Real("INF")  # +infinity as a value: only compared, never used in arithmetic (A1b)
+
+
+def inf_value(x):
+    return INF if x.sign > 0 else -INF
+
+
+def uses_inf():
+    ctx = cur()
+    if not getattr(ctx, "inf_declared", False):
+        ctx.inf_declared = True
+        # every finite quantity that meets the literal infinity in a comparison is below it: stated for the
+        # input tensors; computed quantities are covered by A1b (documented assumption)
+        ctx.assume(INF > 0)
+        for (fn, shape, dt) in list(getattr(ctx, "input_fns", [])):
+            if dt != "f":
+                continue
+            if len(shape) == 0:
+                ctx.assume(z3.And(fn < INF, fn > -INF))
+            else:
+                vs = [z3.Int(f"infq{k}") for k in range(len(shape))]
+                ctx.assume(z3.ForAll(vs, z3.And(fn(*vs) < INF, fn(*vs) > -INF), patterns=[fn(*vs)]))
+
+
 def where(c, a, b):
     if not T(c):
         raise Unsupported("where with scalar condition")
+    if isinstance(a, Inf):
+        uses_inf()
+        a = inf_value(a)
+    if isinstance(b, Inf):
+        uses_inf()
+        b = inf_value(b)
     d = promote(dt_of(a), dt_of(b))
     return ew(lambda cc, x, y: ite(zbool(cc), cast(x, d), cast(y, d)), [c, a, b], out_dtype=d, compute=None)
 
